@@ -41,9 +41,14 @@ def classOf (j : Json) : ClassDesc :=
      (if jIsNull (jF b "metaGetattr") then none else some (seenOf (jF b "metaGetattr") 0)),
      (if jIsNull (jF b "dirOverride") then none else some (natsOf (jF b "dirOverride")))⟩
 
-def paramsOf (other : Body) (j : Json) : Params :=
+/-- `"traits": [[id, reprRaises, strRaises, eqRaises, neRaises]…]` (top level of a case): the objects whose methods raise -/
+def traitsOf (j : Json) : Nat → Traits :=
+  let rows := (jL j).map (fun r => (jN (jAt r 0), (⟨jB (jAt r 1), jB (jAt r 2), jB (jAt r 3), jB (jAt r 4)⟩ : Traits)))
+  fun i => (rows.lookup i).getD Traits.total
+
+def paramsOf (other : Body) (j : Json) (tr : Nat → Traits := fun _ => Traits.total) : Params :=
   ⟨⟨jN (jAt (jF j "param") 0), jN (jAt (jF j "param") 1)⟩, pairsOf (jF j "renames"), other, classOf j,
-   (if jIsNull (jF j "fname") then legacyName else jN (jF j "fname")), guardOf (jF j "guard")⟩
+   (if jIsNull (jF j "fname") then legacyName else jN (jF j "fname")), guardOf (jF j "guard"), tr⟩
 
 /-- what the model's class lookup computes for the tests a decorator could make on `base_class` about the name:
     `name in dir(base)`, `hasattr(base, name)`, `name in base.__dict__`, and for `v = getattr(base, name, None)`:
@@ -71,6 +76,7 @@ def tagJ : RTag → Json
   | .opaque => jArr [jStr "opaque"]
   | .spent => jArr [jStr "spent"]
   | .coro => jArr [jStr "coro"]
+  | .gen => jArr [jStr "gen"]
   | .exc e => jArr (excJ e)
 
 def evJ : Ev → Option Json
@@ -79,10 +85,14 @@ def evJ : Ev → Option Json
   | .print _ => some (jArr [jStr "print"])
   | .warn _ c => some (jArr [jStr "warn", jStr c])
   | .incr _ _ => none
+  | .gen i (.got v) => some (jArr [jStr "gen", jNat i, jStr "got", jNat v])
+  | .gen i (.thrown e) => some (jArr [jStr "gen", jNat i, jStr "thrown", jNat e])
+  | .gen i .closed => some (jArr [jStr "gen", jNat i, jStr "closed"])
 
 /-- (depth, initial value) of every layer that owns a counter, outermost first -/
 def counterLayers : Fn → List (Nat × Int)
   | .body _ => []
+  | .gen _ => []
   | .bound _ i => counterLayers i
   | .deco d _ i =>
     match d.counterInit with
@@ -121,16 +131,16 @@ def kindOfMember (s : String) : MemberKind :=
 def accessOf (s : String) : Access := if s = "cls" then .cls else .instance
 
 /-- innermost layer last in the JSON list; returns the model stack (or the decoration-time exception) and the spec stack -/
-def buildStack (other : Body) (raw : Fn) (sraw : SFn) : List Json → Except String (Except Exc Fn × SFn)
+def buildStack (other : Body) (raw : Fn) (sraw : SFn) (tr : Nat → Traits := fun _ => Traits.total) : List Json → Except String (Except Exc Fn × SFn)
   | [] => .ok (.ok raw, sraw)
   | l :: rest =>
-    match buildStack other raw sraw rest with
+    match buildStack other raw sraw tr rest with
     | .error e => .error e
     | .ok (inner, sinner) =>
       let name := jS (jF l "d")
       match findDeco name, Kind.ofName name with
       | some d, some k =>
-        let p := paramsOf other l
+        let p := paramsOf other l tr
         let m := match inner with
           | .error e => .error e
           | .ok f => decorate d p f
@@ -164,7 +174,8 @@ def handleCall (c : Json) : Json :=
   let raw : Fn := if jIsNull innerJ then .body body else .bound (jN innerJ) (.body body)
   let sraw : SFn := if jIsNull innerJ then .body body else .bound (jN innerJ) (.body body)
   -- the stack above the raw function
-  match buildStack other raw sraw (jL (jF c "layers")) with
+  let tr := traitsOf (jF c "traits")
+  match buildStack other raw sraw tr (jL (jF c "layers")) with
   | .error e => mkObj [("error", jStr e)]
   | .ok (stack, sstack) =>
     -- member of a decorated class / plain method access / plain function
@@ -188,7 +199,7 @@ def handleCall (c : Json) : Json :=
         | some dn =>
           match findDeco dn, Kind.ofName dn with
           | some d, some kd =>
-            let p := paramsOf other (jF mem "params")
+            let p := paramsOf other (jF mem "params") tr
             let twin := twinMember k acc s cl (.body body)
             let stwin : SFn := match k with
               | .method => .bound s (.layer kd p (.body body))
@@ -215,7 +226,7 @@ def handleCall (c : Json) : Json :=
       let specJ := mkObj [("deco", match sdeco with | some e => jArr (excJ e) | none => Json.null),
                           ("calls", jArr (match sdeco with | some _ => [] | none => specCallsJ specOuts)),
                           ("twin", jArr (specCallsJ specTwin)),
-                          ("meta", jBool true),
+                          ("meta", jBool true), ("decoUnspec", jBool (overridesUnspec sfn)),
                           ("coro", if sfn.allDedicated then jBool sfn.isCoro else Json.null)]
       let classObs := (jL (jF c "layers")).filterMap (fun l =>
         if jS (jF l "d") == "overrides" then some (classObsJ (paramsOf other l)) else none)
@@ -259,7 +270,7 @@ def handleStaged (c : Json) : Json := Id.run do
       let name := jS (jF l "d")
       match findDeco name, Kind.ofName name with
       | some d, some k =>
-        let p := paramsOf other l
+        let p := paramsOf other l (traitsOf (jF c "traits"))
         let carried := match layers with
           | [] => preset
           | top :: _ => top.val
@@ -304,7 +315,7 @@ def handleReent (c : Json) : Json := Id.run do
   let body := bodyOf (jF c "body")
   let other := bodyOf (jF c "other")
   let layersJ := jL (jF c "layers")
-  match buildStack other (.body body) (.body body) layersJ with
+  match buildStack other (.body body) (.body body) (traitsOf (jF c "traits")) layersJ with
   | .error e => return mkObj [("error", jStr e)]
   | .ok (.error _, _) => return mkObj [("error", jStr "decoration failed")]
   | .ok (.ok top, _) =>
@@ -368,10 +379,248 @@ def handleReent (c : Json) : Json := Id.run do
     return mkObj [("model", mkObj [("ops", jArr mout), ("meta", jBool top.metaOk), ("coro", jBool top.isCoro)]),
                   ("spec", if transparent then jArr sout else Json.null), ("specTwin", jArr sout)]
 
+/-! ### Generator functions -/
+
+def objsOf (j : Json) : List Obj := (jL j).map (fun o => ⟨jN (jAt o 0), jN (jAt o 1)⟩)
+
+/-- `{"async":…, "sig":…, "script":[…], "yields":[[[id, cls]…]…]}`; beyond the lists: no further yield, returns the object 999999 -/
+def genBodyOf (j : Json) : GenBody :=
+  let sc := (jA (jF j "script")).map outcOf
+  let ys := (jA (jF j "yields")).map objsOf
+  ⟨jB (jF j "async"), sigOf (jF j "sig"), fun i => ys[i]?.getD [], fun i => sc[i]?.getD (.ret ⟨999999, 999999⟩)⟩
+
+def genOpOf (j : Json) : GenOp :=
+  match jTag j with
+  | "send" => .send (jN (jAt j 1))
+  | "throw" => .throw (jN (jAt j 1)) (jB (jAt j 2))
+  | "close" => .close
+  | _ => .next
+
+def genObsJ : GenObs → Json
+  | .yielded v => jArr [jStr "yield", jNat v]
+  | .stop v => jArr [jStr "stop", jNat v]
+  | .raised e => jArr (excJ e)
+  | .closed => jArr [jStr "closed"]
+  | .nothing => jArr [jStr "nothing"]
+
+/-- `{"kind":"gen","body":GENBODY,"other":BODY,"layers":[…],"self":null|id,"member":null|{…},"calls":[{"pos":…,"kw":…,"ops":[OP…]}…]}`: a generator
+    function (or async generator function) under a decorator stack (or as a method of a class under trace_class / timer_class); every call
+    hands out an object that the caller drives with the operations of that call.  Model: events (of the call, then of the drive), kind of
+    result, what every operation shows, counters.  Specification: kind of result, warnings, counters — and the drive of the generator the
+    caller must end up with (`specDrive`).  The twin is the undecorated generator function. -/
+def handleGen (c : Json) : Json := Id.run do
+  let g := genBodyOf (jF c "body")
+  let other := bodyOf (jF c "other")
+  let mem := jF c "member"
+  let selfJ := jF c "self"
+  let tr := traitsOf (jF c "traits")
+  match buildStack other (.gen g) (.gen g) tr (jL (jF c "layers")) with
+  | .error e => return mkObj [("error", jStr e)]
+  | .ok (stack, sstack) =>
+    let mut mfn : Except Exc Fn := stack
+    let mut sfn : SFn := sstack
+    let mut twin : Fn := .gen g
+    let mut stwin : SFn := .gen g
+    if !jIsNull mem then
+      let s := jN (jF mem "self")
+      let cl := jN (jF mem "cls")
+      match (classDecorators.lookup (jS (jF mem "cdeco"))).bind (fun dn => (findDeco dn).bind (fun d => (Kind.ofName dn).map (fun k => (d, k)))) with
+      | none => return mkObj [("error", jStr "unknown class decorator")]
+      | some (d, kd) =>
+        let p := paramsOf other (jF mem "params") tr
+        mfn := .ok (decoratedMember d p .method .instance s cl (.gen g))
+        sfn := .bound s (.layer kd p (.gen g))
+        twin := .bound s (.gen g)
+        stwin := .bound s (.gen g)
+    else if !jIsNull selfJ then
+      let s := jN selfJ
+      mfn := stack.map (Fn.bound s)
+      sfn := .bound s sstack
+      twin := .bound s (.gen g)
+      stwin := .bound s (.gen g)
+    let sdeco := specDecorate sfn
+    let run := fun (f : Fn) => Id.run do
+      let cl := counterLayers f
+      let mut w : World := ⟨0, 0⟩
+      let mut evsAll : List Ev := []
+      let mut out : List Json := []
+      for cj in jL (jF c "calls") do
+        let o := invokeG ((jL (jF cj "ops")).map genOpOf) f (argsOf cj) w
+        w := o.2.2
+        evsAll := evsAll ++ o.2.1
+        out := out ++ [mkObj [("evs", jArr (o.2.1.filterMap evJ)), ("res", tagJ o.1.1.tag), ("obs", jArr (o.1.2.map genObsJ)),
+                              ("counters", jArr (cl.map (fun li => jInt (li.2 + sumIncr li.1 evsAll))))]]
+      return out
+    let runSpec := fun (f : SFn) => Id.run do
+      let mut w : World := ⟨0, 0⟩
+      let mut counts : List Int := []
+      let mut unspec := false
+      let mut out : List Json := []
+      for cj in jL (jF c "calls") do
+        let a := argsOf cj
+        let so := spec f 0 a w
+        w := so.w
+        counts := if counts.isEmpty then so.incrs else (List.zip counts so.incrs).map (fun ab => ab.1 + ab.2)
+        unspec := unspec || so.unspec
+        let dr := if so.res == .gen then specDrive f a ((jL (jF cj "ops")).map genOpOf) w else none
+        let (obs, devs) := match dr with
+          | some r => (r.1, r.2.1)
+          | none => ([], [])
+        w := match dr with
+          | some r => r.2.2
+          | none => w
+        out := out ++ [mkObj [("res", tagJ so.res), ("obs", jArr (obs.map genObsJ)), ("calls", jArr ((so.calls ++ devs).filterMap evJ)),
+                              ("warns", jNat so.warns), ("counters", jArr (counts.map jInt)), ("unspec", jBool unspec), ("mayReject", jBool so.mayReject)]]
+      return out
+    let modelJ := match mfn with
+      | .error e => mkObj [("deco", jArr (excJ e)), ("calls", jArr []), ("meta", Json.null), ("coro", Json.null)]
+      | .ok f => mkObj [("deco", Json.null), ("calls", jArr (run f)), ("meta", jBool f.metaOk), ("coro", jBool f.isCoro)]
+    let specJ := mkObj [("deco", match sdeco with | some e => jArr (excJ e) | none => Json.null),
+                        ("calls", jArr (match sdeco with | some _ => [] | none => runSpec sfn)),
+                        ("twin", jArr (runSpec stwin)), ("meta", jBool true), ("decoUnspec", jBool (overridesUnspec sfn)), ("coro", jBool false)]
+    return mkObj [("model", modelJ), ("spec", specJ), ("modelTwin", jArr (run twin))]
+
+/-! ### Property members of a class under trace_class / timer_class -/
+
+def propOpOf (j : Json) : PropOp :=
+  match jTag j with
+  | "set" => .set (jN (jAt j 1))
+  | "del" => .del
+  | _ => .get
+
+/-- `{"kind":"prop","cdeco":…,"params":…,"acc":[hasGetter, hasSetter, hasDeleter],"script":[…],"self":id,"ops":[["get"]|["set",v]|["del"]…]}`: a class under
+    trace_class / timer_class with a property that has exactly the listed accessors (getter `(self)`, setter `(self, a)`, deleter `(self)`;
+    one script, indexed by the number of accessor runs so far); per operation: events, result, and the accessor of the ORIGINAL property
+    whose body ran (`acc`, null = none).  Twin: the undecorated class. -/
+def handleProp (c : Json) : Json := Id.run do
+  let sc := (jA (jF c "script")).map outcOf
+  let script : Nat → Outc := fun i => sc[i]?.getD (.ret ⟨999999, 999999⟩)
+  let sig1 : Sig := ⟨[1], [], [], false, false⟩
+  let sig2 : Sig := ⟨[1, 2], [], [], false, false⟩
+  let has := (jL (jF c "acc")).map jB
+  let bget : Option Body := if has[0]?.getD false then some ⟨false, sig1, script⟩ else none
+  let bset : Option Body := if has[1]?.getD false then some ⟨false, sig2, script⟩ else none
+  let bdel : Option Body := if has[2]?.getD false then some ⟨false, sig1, script⟩ else none
+  let old : PropObj := ⟨bget.map Fn.body, bset.map Fn.body, bdel.map Fn.body⟩
+  let self := jN (jF c "self")
+  match (classDecorators.lookup (jS (jF c "cdeco"))).bind findDeco with
+  | none => return mkObj [("error", jStr "unknown class decorator")]
+  | some d =>
+    let other : Body := ⟨false, sig1, script⟩
+    let p := paramsOf other (jF c "params") (traitsOf (jF c "traits"))
+    let new := rebuildProp d p old
+    let run := fun (po : PropObj) (src : Slot → Option Slot) => Id.run do
+      let mut w : World := ⟨0, 0⟩
+      let mut out : List Json := []
+      for oj in jL (jF c "ops") do
+        let op := propOpOf oj
+        let o := propAccess po self op w
+        w := o.2.2
+        -- the accessor of the original property whose body ran (none: no accessor body ran)
+        let acc : Option Slot := match po.slot op.slot with
+          | none => none
+          | some _ => if o.2.1.any (isBodyOf .wrapped) then src op.slot else none
+        out := out ++ [mkObj [("evs", jArr (o.2.1.filterMap evJ)), ("res", tagJ o.1.tag),
+                              ("acc", match acc with | some s => jStr s.name | none => Json.null)]]
+      return out
+    let mut sw : World := ⟨0, 0⟩
+    let mut sout : List Json := []
+    for oj in jL (jF c "ops") do
+      let op := propOpOf oj
+      let so := specPropAccess bget bset bdel self op sw
+      sw := so.w
+      let present := match op with
+        | .get => bget.isSome
+        | .set _ => bset.isSome
+        | .del => bdel.isSome
+      sout := sout ++ [mkObj [("res", tagJ so.res), ("calls", jArr (so.calls.filterMap evJ)),
+                              ("acc", if present && !so.calls.isEmpty then jStr op.slot.name else Json.null)]]
+    return mkObj [("model", jArr (run new rebuiltSource)), ("modelTwin", jArr (run old some)), ("spec", jArr sout)]
+
+/-! ### One decorator object applied to several callables -/
+
+/-- `{"kind":"shared","layer":LAYER,"other":BODY,"script":[…],"funcs":[{"coro":…,"sig":…,"fname":…}…],"calls":[{"fn":i,"pos":…,"kw":…}…]}`: ONE decorator
+    object (`layer`) applied to every function of `funcs` in turn, then the calls (interleaved over the results).  Per result: the index of the
+    wrapper object it is, the index of the function whose metadata it shows, coroutine-ness; per call: events, result, the counters of
+    that result.  Specification: every result is an object of its own, shows its own function's metadata, and behaves as if the
+    decorator had been applied to it alone. -/
+def handleShared (c : Json) : Json := Id.run do
+  let sc := (jA (jF c "script")).map outcOf
+  let script : Nat → Outc := fun i => sc[i]?.getD (.ret ⟨999999, 999999⟩)
+  let other := bodyOf (jF c "other")
+  let l := jF c "layer"
+  let name := jS (jF l "d")
+  match findDeco name with
+  | none => return mkObj [("error", jStr s!"unknown decorator {name}")]
+  | some d =>
+    let p0 := paramsOf other l (traitsOf (jF c "traits"))
+    let funcs := jL (jF c "funcs")
+    let bodies : List Body := funcs.map (fun f => ⟨jB (jF f "coro"), sigOf (jF f "sig"), script⟩)
+    let ps : List Params := funcs.map (fun f => if jIsNull (jF f "fname") then p0 else { p0 with fname := jN (jF f "fname") })
+    let fs : List Fn := bodies.map Fn.body
+    -- decoration-time outcome of every application
+    let decoExc : List (Option Exc) := (List.zip ps fs).map (fun pf => match decorate d pf.1 pf.2 with | .ok _ => none | .error e => some e)
+    let apps0 := applyShared d p0 fs
+    -- the parameters (the name looked up by `overrides`) are those of the application
+    let apps : List Applied := (List.zip apps0 ps).map (fun ap => { ap.1 with fn := match ap.1.fn with | .deco d' _ i => .deco d' ap.2 i | f => f })
+    let kind := Kind.ofName name
+    let sfns : List SFn := match kind with
+      | some k => (List.zip ps bodies).map (fun pb => SFn.layer k pb.1 (.body pb.2))
+      | none => bodies.map SFn.body
+    let sdecoExc : List (Option Exc) := sfns.map specDecorate
+    let mut w : World := ⟨0, 0⟩
+    let mut sw : World := ⟨0, 0⟩
+    let mut tw : World := ⟨0, 0⟩
+    let mut evsPer : List (List Ev) := fs.map (fun _ => [])
+    let mut scounts : List (List Int) := fs.map (fun _ => [])
+    let mut mout : List Json := []
+    let mut sout : List Json := []
+    let mut tout : List Json := []
+    for cj in jL (jF c "calls") do
+      let i := jN (jF cj "fn")
+      let a := argsOf cj
+      match apps[i]?, sfns[i]?, bodies[i]? with
+      | some ap, some sf, some b =>
+        let o := invoke ap.fn a w
+        w := o.2.2
+        evsPer := evsPer.set i ((evsPer[i]?.getD []) ++ o.2.1)
+        let cl := counterLayers ap.fn
+        mout := mout ++ [mkObj [("evs", jArr (o.2.1.filterMap evJ)), ("res", tagJ o.1.tag),
+                                ("counters", jArr (cl.map (fun li => jInt (li.2 + sumIncr li.1 (evsPer[i]?.getD [])))))]]
+        let so := spec sf 0 a sw
+        sw := so.w
+        let prev := scounts[i]?.getD []
+        let now := if prev.isEmpty then so.incrs else (List.zip prev so.incrs).map (fun ab => ab.1 + ab.2)
+        scounts := scounts.set i now
+        sout := sout ++ [mkObj [("res", tagJ so.res), ("calls", jArr (so.calls.filterMap evJ)), ("warns", jNat so.warns),
+                                ("counters", jArr (now.map jInt)), ("unspec", jBool so.unspec), ("mayReject", jBool so.mayReject)]]
+        let t := invoke (.body b) a tw
+        tw := t.2.2
+        tout := tout ++ [mkObj [("evs", jArr (t.2.1.filterMap evJ)), ("res", tagJ t.1.tag), ("counters", jArr [])]]
+      | _, _, _ => mout := mout ++ [Json.null]
+    let optExcJ : Option Exc → Json := fun e => match e with | some e => jArr (excJ e) | none => Json.null
+    let dedicated := dedicatedNames.contains name
+    return mkObj [
+      ("model", mkObj [("deco", jArr (decoExc.map optExcJ)),
+                       ("objs", jArr (apps.map (fun ap => jNat ap.obj))),
+                       ("shows", jArr (apps.map (fun ap => jNat ap.shows))),
+                       ("meta", jArr (apps.map (fun ap => jBool ap.fn.metaOk))),
+                       ("coro", jArr (apps.map (fun ap => jBool ap.fn.isCoro))),
+                       ("calls", jArr mout)]),
+      ("spec", mkObj [("deco", jArr (sdecoExc.map optExcJ)),
+                      ("objs", jArr ((List.range fs.length).map jNat)),
+                      ("shows", jArr ((List.range fs.length).map jNat)),
+                      ("coro", jArr (bodies.map (fun b => if dedicated || name == "overrides" then jBool b.isCoro else Json.null))),
+                      ("calls", if kind.isSome then jArr sout else Json.null)]),
+      ("modelTwin", jArr tout)]
+
 def handle (c : Json) : Json :=
   if jS (jF c "kind") == "attrs" then handleAttrs c
   else if jS (jF c "kind") == "reent" then handleReent c
   else if jS (jF c "kind") == "staged" then handleStaged c
+  else if jS (jF c "kind") == "gen" then handleGen c
+  else if jS (jF c "kind") == "prop" then handleProp c
+  else if jS (jF c "kind") == "shared" then handleShared c
   else handleCall c
 
 end PedVerif.Drv.Utility
